@@ -282,9 +282,21 @@ pub fn build_messy_from_pos(pos: &Value, salt: u64) -> Result<Board, String> {
             b.place(sq(i as u8), c, p).map_err(|_| "occupied".to_string())?;
             placed.push((i as u8, c, p));
             // a second placement on the same square must be refused and change nothing
-            let other = if p == Piece::Queen { Piece::Knight } else { Piece::Queen };
-            if b.place(sq(i as u8), if (salt + i as u64) % 2 == 0 { c } else { !c }, other).is_ok() {
+            // vary what is offered: another piece of the same colour, another piece of the other
+            // colour, the same piece of the other colour
+            let other = match (salt + i as u64) % 3 {
+                0 => p,
+                _ => if p == Piece::Queen { Piece::Knight } else { Piece::Queen },
+            };
+            let oc = if (salt + i as u64) % 3 == 1 { c } else { !c };
+            if b.place(sq(i as u8), oc, other).is_ok() {
                 return Err("second placement on an occupied square was accepted".into());
+            }
+            if (salt + i as u64) % 3 == 0 {
+                // after the refusal: clear the square (twice: the second call finds it empty) and place again
+                b.remove(sq(i as u8));
+                b.remove(sq(i as u8));
+                b.place(sq(i as u8), c, p).map_err(|_| "place after remove".to_string())?;
             }
         } else if (salt + i as u64) % 7 == 0 {
             // a stray piece that is removed again; removing an empty square is a no-op
